@@ -14,3 +14,9 @@ import FindVerif.OnSource
 #print axioms FV.OnSource.C04_literal_roundtrip
 #print axioms FV.OnSource.C20_one_place
 #print axioms FV.OnSource.C20_device_decodes
+#print axioms FV.OnSource.C02_end_to_end
+#print axioms FV.OnSource.C09_nowrap
+#print axioms FV.OnSource.C16_framed_only_frame_writes
+#print axioms FV.OnSource.C05_test_unary
+#print axioms FV.OnSource.C18_unknown
+#print axioms FV.OnSource.C01_iff
